@@ -147,7 +147,11 @@ def file_cases(draw, tier):
     if draw(st.integers(0, 3)) == 0:
         i = draw(st.integers(0, len(rankings) - 1))
         rankings.append([list(b) for b in rankings[i]])
-    return {"kind": kind, "rankings": rankings}
+    second = None
+    if draw(st.integers(0, 2)) == 0:
+        second = [draw(gen.weak_order_of(list(draw(st.permutations(names)))[:draw(st.integers(1, len(names)))]))
+                  for _ in range(draw(st.integers(1, 3)))]
+    return {"kind": kind, "rankings": rankings, "second": second}
 
 
 def scratch_dir():
@@ -168,6 +172,16 @@ def check_file(case, ctx):
         d2 = lib.must(Dataset.from_file, path)
         with open(path, encoding="utf-8") as f:
             content = f.read()
+        if case.get("second"):
+            # the path is fresh again after the file is deleted: another dataset written there must read back as itself
+            os.remove(path)
+            lib.must(lib.mk_dataset(case["second"]).write, path)
+            d3 = lib.must(Dataset.from_file, path)
+            w3 = Counter(oracle.canon(r) for r in lib.normalized(case["second"]))
+            g3 = Counter(oracle.canon(r) for r in lib.model_of_dataset(d3))
+            if g3 != w3:
+                raise Violation("path reused after deletion: dataset %s written, %s read back (first dataset at that "
+                                "path was %s)" % (case["second"], lib.model_of_dataset(d3), rankings))
     finally:
         shutil.rmtree(tmp, ignore_errors=True)
     want = Counter(oracle.canon(r) for r in lib.normalized(rankings))
